@@ -119,3 +119,102 @@ def import_from(outdir, modname):
         sys.path.insert(0, outdir)
     importlib.invalidate_caches()
     return importlib.import_module(modname)
+
+
+# --------------------------------------------------------------------------- C12: cdef vs C world
+
+MUTATIONS = ("MutateField", "MutateConst", "MutateEnumerator", "AddDots")
+
+
+def split_mutations(beh):
+    decls = [a for a in beh if a["a"] not in MUTATIONS]
+    muts = [a for a in beh if a["a"] in MUTATIONS]
+    return decls, muts
+
+
+def apply_mutations(decls, muts):
+    """the declarations as the (mutated) cdef states them + the set of flexible items"""
+    import copy
+    out = copy.deepcopy(decls)
+    flex = set()
+    for m in muts:
+        a = m["a"]
+        if a == "MutateField":
+            for d in out:
+                if d["a"] == "DeclStruct" and d["kind"] == m["kind"] and d["tag"] == m["tag"]:
+                    fs, i = d["fs"], m["i"] - 1
+                    if m["how"] == "type":
+                        fs[i] = [fs[i][0], ["prim", m["arg"]], -1]
+                    elif m["how"] == "drop":
+                        del fs[i]
+                    elif m["how"] == "swap":
+                        fs[i], fs[i + 1] = fs[i + 1], fs[i]
+        elif a == "MutateConst":
+            for d in out:
+                if d["a"] == "DeclConst" and d["n"] == m["n"]:
+                    d["val"] = m["val"]
+        elif a == "MutateEnumerator":
+            for d in out:
+                if d["a"] == "DeclEnum" and d["tag"] == m["tag"]:
+                    d["vals"][m["i"] - 1] = m["val"]
+        elif a == "AddDots":
+            flex.add((m["what"], tuple(m["item"]) if isinstance(m["item"], list) else m["item"]))
+    return out, flex
+
+
+def render_cdef_api(cdef_decls, flex):
+    lines = []
+    for d in cdef_decls:
+        a = d["a"]
+        if a == "DeclStruct" and ("su", (d["kind"], d["tag"])) in flex:
+            lines.append("%s %s { %s ...; };" % (d["kind"], d["tag"], mg.fields_text(d["fs"])))
+        elif a == "DeclConst" and ("k", d["n"]) in flex:
+            lines.append("\n#define %s ...\n" % d["n"])
+        else:
+            lines.append(mg.render(d))
+    return "\n".join(lines) + "\n"
+
+
+def prim_is_int(t):
+    return t[0] == "prim" and t[1] in INT_PRIMS
+
+
+def helpers(decls, suffix=""):
+    """Extra C functions that let the check ask gcc directly: layout facts of every complete
+    struct/union, addresses of functions and variables, read/write access to integer variables.
+    Returns (C text, cdef text, plan) - plan tells which fact index means what."""
+    td = track_td(decls)
+    facts, plan_f = [], []
+    for d in decls:
+        if d["a"] == "DeclStruct":
+            ty = "%s %s" % (d["kind"], d["tag"])
+        elif d["a"] == "DeclTypedefAnon":
+            ty = d["n"]
+        else:
+            continue
+        key = "%s %s" % (d["kind"], d["tag"] if d["a"] == "DeclStruct" else "$" + d["n"])
+        plan_f.append((key, "size", None)); facts.append("(long long)sizeof(%s)" % ty)
+        plan_f.append((key, "align", None)); facts.append("(long long)__alignof__(%s)" % ty)
+        for f in d["fs"]:
+            if f[2] >= 0:
+                continue
+            plan_f.append((key, "off", f[0])); facts.append("(long long)offsetof(%s, %s)" % (ty, f[0]))
+            plan_f.append((key, "fsize", f[0])); facts.append("(long long)sizeof(((%s *)0)->%s)" % (ty, f[0]))
+    addrs, plan_a = [], []
+    c, cdef = [], []
+    for d in decls:
+        # (functions: ffi.addressof(lib, f) is by design the address of the generated direct-call
+        #  wrapper _cffi_d_f, not of f itself; only variables have "the compiler's address")
+        if d["a"] == "DeclGlobal":
+            plan_a.append(d["n"]); addrs.append("(void *)&%s" % d["n"])
+            rt = resolve(d["t"], td)
+            if prim_is_int(rt):
+                c.append("long long _vget_%s(void) { return (long long)%s; }" % (d["n"], d["n"]))
+                c.append("void _vset_%s(long long v) { %s = (%s)v; }" % (d["n"], d["n"], mg.decl(d["t"], "")))
+                cdef.append("long long _vget_%s(void); void _vset_%s(long long);" % (d["n"], d["n"]))
+    c.append("long long _vfact%s(int i) { switch (i) { %s default: return -12345; } }" % (
+        suffix, " ".join("case %d: return %s;" % (i, e) for i, e in enumerate(facts))))
+    c.append("void *_vaddr%s(int i) { switch (i) { %s default: return 0; } }" % (
+        suffix, " ".join("case %d: return %s;" % (i, e) for i, e in enumerate(addrs))))
+    cdef.append("long long _vfact%s(int); void *_vaddr%s(int);" % (suffix, suffix))
+    return "\n".join(c) + "\n", "\n".join(cdef) + "\n", {"facts": plan_f, "addrs": plan_a}
